@@ -12,10 +12,14 @@ if os.path.exists(hp):
         l = l.strip()
         if l and not l.startswith("#"):
             hooks_commits.append(l.split()[0])
+ready = set(open(os.path.join(V, "tools", "ready.txt")).read().split())
 checks, na = [], []
 for p in props:
     pid = p["id"]
     c = cfg.get(pid)
+    if pid not in ready and not (c or {}).get("not_applicable"):
+        na.append({"property_id": pid, "reason": "check still under construction in this session (design: DESIGN.md section %s); not claimed until it has been validated on the unchanged tree" % pid})
+        continue
     if not c or c.get("not_applicable"):
         na.append({"property_id": pid, "reason": (c or {}).get("not_applicable", "check not built yet in this session (design in DESIGN.md)")})
         continue
